@@ -139,6 +139,7 @@ static void ros_oracle(const RosCase& cs, const mocks::Shared& sh, const micm::S
   std::size_t nF = 0, nJ = 0, nL = 0, nS = 0, nN = 0;
   std::vector<double> jy;  // state at which the Jacobian was last evaluated
   std::vector<double> Hs;  // recovered H per attempt (0 = could not be recovered)
+  std::vector<double> Halpha;  // H per attempt as 1 / (gamma * diagonal shift) (0 = not observable)
   std::vector<double> errs;
   const auto& ev = sh.events;
   for (std::size_t k = 0; k < ev.size(); ++k)
@@ -181,6 +182,8 @@ static void ros_oracle(const RosCase& cs, const mocks::Shared& sh, const micm::S
             }
         if (!shape_ok && tame)
           out.tok("ORACLE_MATRIX_NOT_ALPHA_I_MINUS_J");
+        // the step size as the diagonal shift shows it (usable when the values are too large for the clauses below)
+        Halpha.push_back(shape_ok && std::isfinite(alpha) && alpha > 0 ? 1.0 / (cs.params.gamma_[0] * alpha) : 0.0);
         // recover H from stage 1 of this attempt
         double H = 0;
         if (cs.params.stages_ >= 2 && cs.params.c_[0] != 0.0)
@@ -254,6 +257,17 @@ static void ros_oracle(const RosCase& cs, const mocks::Shared& sh, const micm::S
         out.tok("ORACLE_CONVERGED_WITH_NONFINITE:error_norm_not_reported");
       break;
     }
+  // sub-microsecond problems: the diagonal shift is huge, the arithmetic clauses are skipped, but h_max still binds
+  if (!tame)
+  {
+    const double h_max = cs.params.h_max_ == 0.0 ? cs.time_step : std::min(cs.time_step, cs.params.h_max_);
+    for (double h : Halpha)
+      if (h > h_max * (1 + 1e-6) && cs.params.h_min_ <= h_max)
+      {
+        out.tok(h_max <= 10 * cs.params.round_off_ ? "ORACLE_STEP_EXCEEDS_H_MAX:h_max_not_above_10_round_off" : "ORACLE_STEP_EXCEEDS_H_MAX");
+        break;
+      }
+  }
   // accepted attempts and their H
   bool all_h = true;
   for (double h : Hs)
